@@ -73,3 +73,12 @@ Properties/C02.vos Properties/C02.vok Properties/C02.required_vos: Properties/C0
 Properties/C12.vo Properties/C12.glob Properties/C12.v.beautified Properties/C12.required_vo: Properties/C12.v Engine/Regex.vo PyRt/Str.vo Gen/Tables.vo Model/Trs.vo Spec/C12Spec.vo Proofs/C12/Finite.vo
 Properties/C12.vio: Properties/C12.v Engine/Regex.vio PyRt/Str.vio Gen/Tables.vio Model/Trs.vio Spec/C12Spec.vio Proofs/C12/Finite.vio
 Properties/C12.vos Properties/C12.vok Properties/C12.required_vos: Properties/C12.v Engine/Regex.vos PyRt/Str.vos Gen/Tables.vos Model/Trs.vos Spec/C12Spec.vos Proofs/C12/Finite.vos
+Model/Unpack.vo Model/Unpack.glob Model/Unpack.v.beautified Model/Unpack.required_vo: Model/Unpack.v Engine/Regex.vo Gen/Patterns.vo PyRt/Str.vo Gen/Tables.vo Model/Trs.vo
+Model/Unpack.vio: Model/Unpack.v Engine/Regex.vio Gen/Patterns.vio PyRt/Str.vio Gen/Tables.vio Model/Trs.vio
+Model/Unpack.vos Model/Unpack.vok Model/Unpack.required_vos: Model/Unpack.v Engine/Regex.vos Gen/Patterns.vos PyRt/Str.vos Gen/Tables.vos Model/Trs.vos
+Model/TractPre.vo Model/TractPre.glob Model/TractPre.v.beautified Model/TractPre.required_vo: Model/TractPre.v Engine/Regex.vo Gen/Patterns.vo PyRt/Str.vo Gen/Tables.vo Model/Trs.vo
+Model/TractPre.vio: Model/TractPre.v Engine/Regex.vio Gen/Patterns.vio PyRt/Str.vio Gen/Tables.vio Model/Trs.vio
+Model/TractPre.vos Model/TractPre.vok Model/TractPre.required_vos: Model/TractPre.v Engine/Regex.vos Gen/Patterns.vos PyRt/Str.vos Gen/Tables.vos Model/Trs.vos
+Model/TractParse.vo Model/TractParse.glob Model/TractParse.v.beautified Model/TractParse.required_vo: Model/TractParse.v Engine/Regex.vo Gen/Patterns.vo PyRt/Str.vo Gen/Tables.vo Model/Trs.vo Model/Unpack.vo Model/TractPre.vo Model/Aliquot.vo
+Model/TractParse.vio: Model/TractParse.v Engine/Regex.vio Gen/Patterns.vio PyRt/Str.vio Gen/Tables.vio Model/Trs.vio Model/Unpack.vio Model/TractPre.vio Model/Aliquot.vio
+Model/TractParse.vos Model/TractParse.vok Model/TractParse.required_vos: Model/TractParse.v Engine/Regex.vos Gen/Patterns.vos PyRt/Str.vos Gen/Tables.vos Model/Trs.vos Model/Unpack.vos Model/TractPre.vos Model/Aliquot.vos
